@@ -36,6 +36,8 @@ FACTORS = [
     ("C(A)", ["A"]), ("A", ["A"]), ("poly(a, 2)", ["a"]), ("I(a * b)", ["a", "b"]), ("bs(e, df=3)", ["e"]), ("{a + 1}", ["a"]),
     ("I(`c d` + a)", ["c d", "a"]), ("np.exp(e / 10)", ["e"]), ("f1(a)", ["a"]), ("f2(b, e)", ["b", "e"]), ("log(f1(a) + b)", ["a", "b"]),
     ("C(A, contr.sum)", ["A"]), ("center(`c d`)", ["c d"]), ("{`1z` * 2}", ["1z"]), ("`1z`", ["1z"]), ("np.sqrt(b):a", ["a", "b"]),
+    # a column whose name equals the sanitised alias of the quoted column `c d`
+    ("c_d", ["c_d"]), ("{c_d * 2}", ["c_d"]), ("I(`c d` - c_d)", ["c d", "c_d"]),
     ("f3(a)(e)", ["a", "e"]), ("{np.stack([b, e], axis=1)[:, 0]}", ["b", "e"]), ("I(f3(b)(a) - e)", ["a", "b", "e"]),
 ]
 METHOD_FACTORS = [("{a.clip(0)}", ["a"]), ("{a.sum() * b}", ["a", "b"]), ("I(b.values)", ["b"]), ("{(a + b).abs()}", ["a", "b"])]
@@ -48,7 +50,7 @@ def frame():
     return pd.DataFrame(
         {
             "u1": np.arange(n) * 1.0, "a": [1.0, 2.5, 3.0, 4.5, 5.0, 7.0], "b": [2.0, 1.0, 4.0, 3.0, 6.0, 5.0], "A": pd.Series(list("xyzxyz"), dtype=object),
-            "c d": [0.5, 1.5, 2.5, 3.5, 4.5, 6.5], "e": [9.0, 7.0, 8.0, 3.0, 1.0, 2.0], "1z": [1.0, 0.0, 2.0, 5.0, 3.0, 4.0], "y": [1.0, 3.0, 2.0, 5.0, 4.0, 6.0], "u2": list("pqrpqr"),
+            "c d": [0.5, 1.5, 2.5, 3.5, 4.5, 6.5], "c_d": [3.0, 1.0, 4.0, 1.0, 5.0, 9.0], "e": [9.0, 7.0, 8.0, 3.0, 1.0, 2.0], "1z": [1.0, 0.0, 2.0, 5.0, 3.0, 4.0], "y": [1.0, 3.0, 2.0, 5.0, 4.0, 6.0], "u2": list("pqrpqr"),
         }
     )
 
@@ -78,7 +80,8 @@ def check_required(case) -> Outcome:
         s = f"{['y', 'log(y)', 'y + a'][case['lhs'] % 3]} ~ {rhs}"
         exp |= {"y"} | ({"a"} if case["lhs"] % 3 == 2 else set())
     method = any(f in METHOD_FACTORS for f in facs)
-    feat_target = "expression" if any(f[0] == "{(a + b).abs()}" for f in facs) else "column"
+    # (a method on an expression target is handled since repair F38; what remains open is the method on a column)
+    feat_target = "column" if any(f in METHOD_FACTORS and f[0] != "{(a + b).abs()}" for f in facs) else "expression"
     out.label("method-access" if method else "plain")
     out.nontrivial = any("(" in f or "{" in f for f, _ in facs)
     feat = dict(method=method, target=feat_target if method else "none")
@@ -150,6 +153,9 @@ def check_layers(case) -> Outcome:
         # a value name: built-ins hold no plain values except modules, so the built-in layer is the module `np`... use
         # the name 'q' for data/context only
         name = "q"
+        if usage == "lookup" and case.get("vname"):
+            # a column that happens to be called like a built-in transform, referenced as a bare name
+            name = ["q", "scale", "center", "log"][case["vname"] % 4]
         if "data" in layers:
             data[name] = [10.0, 20.0, 30.0, 40.0]
         if "context" in layers:
@@ -177,6 +183,11 @@ def check_layers(case) -> Outcome:
             exp, src = np.log(k), "transforms"
         vname = name
     df = pd.DataFrame(data)
+    if usage != "callable":
+        # before materialisation a bare or python-evaluated value name is always reported
+        pre = set(map(str, Formula(s).required_variables))
+        if vname not in pre and not (usage == "python-value" and vname != "q"):
+            out.fail("required-before-materialisation", f"{s!r}: Formula.required_variables {sorted(pre)} lacks {vname!r}", **feat)
     entry = case.get("entry", "formula")
     out.label("entry:" + entry)
     try:
@@ -219,6 +230,7 @@ def gen_layers():
         {
             "usage": st.sampled_from(["lookup", "python-value", "callable"]),
             "entry": st.sampled_from(["formula", "formula", "spec", "spec-overrides"]),
+            "vname": st.integers(0, 3),
             "layers": st.sets(st.sampled_from(["data", "context", "builtin"]), min_size=1, max_size=3).map(lambda s: s | {"builtin"} if False else s),
         }
     )
